@@ -40,6 +40,8 @@ pub enum Base {
     Shipped(u8),
     /// random bytes of the given length under the given name
     Random { len: u32, seed: u64, name: String },
+    /// a saved input (xz-compressed under /verif/corpus/C07/blobs), stored under its own name without the .xz
+    Blob { file: String },
 }
 
 #[derive(Clone, Debug, Serialize, Deserialize, PartialEq, Eq)]
@@ -58,6 +60,9 @@ pub enum Fault {
     /// maximum, base-256 2^62, octal maximum, blanks, NULs, 0xFF) with the header checksum recomputed; for gzip the
     /// MTIME/XFL/OS header bytes, the flag bits and the ISIZE trailer. Other content: the first 16 bytes.
     Header { field: u8, kind: u8 },
+    /// plain .evtx only: the `next` link of an entry of a chunk's string table (table 0) or template table (1) is
+    /// redirected: to itself (`to` = 0: the trigger of known finding F27), or to the offset `to`*8 inside the chunk
+    EvtxLink { table: u8, bucket: u8, to: u16 },
 }
 
 #[derive(Clone, Debug, Serialize, Deserialize)]
@@ -68,6 +73,42 @@ pub struct Case {
     pub neighbours: u8,
     /// position of the damaged source among the arguments
     pub position: u8,
+}
+
+/// Known finding F27: the `evtx` crate (0.8.5) follows the `next` offsets of a chunk's string table (64 buckets at
+/// chunk offset 128) and template table (32 buckets at 384) without cycle detection; a chain that returns to an offset
+/// already visited never ends (`StringCache::populate`, `TemplateCache::populate`). Returns the table with such a chain.
+pub fn evtx_chain_cycle(data: &[u8]) -> Option<&'static str> {
+    let mut base = 4096usize;
+    while base + 512 <= data.len() {
+        let chunk = &data[base..data.len().min(base + 65536)];
+        if chunk.len() >= 512 && &chunk[..8] == b"ElfChnk\0" {
+            for (table, first, n) in [("string table", 128usize, 64usize), ("template table", 384, 32)] {
+                for b in 0..n {
+                    let rd = |o: usize| -> Option<u32> { chunk.get(o..o + 4).map(|x| u32::from_le_bytes(x.try_into().unwrap())) };
+                    let mut off = match rd(first + 4 * b) {
+                        Some(o) if o > 0 => o as usize,
+                        _ => continue,
+                    };
+                    let mut seen = std::collections::HashSet::new();
+                    loop {
+                        if !seen.insert(off) {
+                            return Some(table);
+                        }
+                        match rd(off) {
+                            Some(next) if next > 0 => off = next as usize,
+                            _ => break,
+                        }
+                        if seen.len() > 70000 {
+                            return Some(table);
+                        }
+                    }
+                }
+            }
+        }
+        base += 65536;
+    }
+    None
 }
 
 fn xorshift(s: &mut u64) -> u64 {
@@ -133,6 +174,12 @@ fn build_damaged(case: &Case, dir: &std::path::Path) -> Result<(std::path::PathB
                 (raw, format!("zdamaged-{}", base))
             }
         }
+        Base::Blob { file } => {
+            let raw = std::fs::read(crate::engine::verif_root().join("corpus/C07/blobs").join(file)).map_err(|e| format!("{}: {}", file, e))?;
+            let mut v = Vec::new();
+            lzma_rs::xz_decompress(&mut std::io::Cursor::new(raw), &mut v).map_err(|e| format!("{}: {:?}", file, e))?;
+            (v, format!("zdamaged-{}", file.trim_end_matches(".xz")))
+        }
         Base::Random { len, seed, name } => {
             let mut s = *seed;
             let v: Vec<u8> = (0..*len).map(|_| (xorshift(&mut s) >> 24) as u8).collect();
@@ -181,6 +228,34 @@ fn build_damaged(case: &Case, dir: &std::path::Path) -> Result<(std::path::PathB
         Fault::Rename { name: nn } => {
             name = format!("zdamaged-{}", nn);
             format!("valid content stored as {}", nn)
+        }
+        Fault::EvtxLink { table, bucket, to } => {
+            let mut done = None;
+            if data.len() >= 4096 + 512 && &data[4096..4104] == b"ElfChnk\0" {
+                let (first, n) = if table % 2 == 0 { (128usize, 64usize) } else { (384, 32) };
+                let chunk = 4096;
+                // the first used bucket at or after the chosen one
+                for k in 0..n {
+                    let b = (*bucket as usize + k) % n;
+                    let o = u32::from_le_bytes(data[chunk + first + 4 * b..chunk + first + 4 * b + 4].try_into().unwrap()) as usize;
+                    if o > 0 && chunk + o + 4 <= data.len() {
+                        let target: u32 = if *to == 0 { o as u32 } else { (*to as u32 * 8) % 65536 };
+                        data[chunk + o..chunk + o + 4].copy_from_slice(&target.to_le_bytes());
+                        done = Some(format!("evtx chunk 0 {} bucket {}: entry at {} now links to {}", if table % 2 == 0 { "string table" } else { "template table" }, b, o, target));
+                        break;
+                    }
+                }
+            }
+            match done {
+                Some(d) => d,
+                None => {
+                    if !data.is_empty() {
+                        let k = (*to as usize) % data.len();
+                        data[k] ^= 0x55;
+                    }
+                    "one byte flipped (not a plain evtx)".to_string()
+                }
+            }
         }
         Fault::Header { field, kind } => {
             const TAR_FIELDS: &[(&str, usize, usize)] = &[("name", 0, 100), ("mode", 100, 8), ("uid", 108, 8), ("gid", 116, 8), ("size", 124, 12), ("mtime", 136, 12), ("typeflag", 156, 1), ("linkname", 157, 100), ("magic", 257, 6), ("uname", 265, 32)];
@@ -354,6 +429,12 @@ impl Property for C07 {
                 }
             }
         }
+        // known findings F27/F28: saved libFuzzer inputs (fuzz_evtx)
+        for f in ["string-chain-cycle.evtx.xz", "template-expansion-hang.evtx.xz", "value-variant-panic.evtx.xz"] {
+            v.push((format!("blob-{}", f.trim_end_matches(".evtx.xz")), Case { base: Base::Blob { file: f.to_string() }, fault: Fault::None, neighbours: 1, position: 0 }));
+        }
+        // known finding F27: self-linked string-table entry in the shipped evtx
+        v.push(("evtx-string-table-self-link".to_string(), Case { base: Base::Shipped(1), fault: Fault::EvtxLink { table: 0, bucket: 0, to: 0 }, neighbours: 1, position: 0 }));
         v
     }
     fn strategy(&self, _tier: Tier) -> BoxedStrategy<Case> {
@@ -372,6 +453,7 @@ impl Property for C07 {
             3 => prop::sample::select(MISMATCH_NAMES.to_vec()).prop_map(|n| Fault::Rename { name: n.to_string() }),
             2 => prop::collection::vec(any::<u8>(), 1..=12).prop_map(|bytes| Fault::Append { bytes }),
             4 => (any::<u8>(), any::<u8>()).prop_map(|(field, kind)| Fault::Header { field, kind }),
+            1 => (any::<u8>(), any::<u8>(), prop_oneof![1 => Just(0u16), 3 => any::<u16>()]).prop_map(|(table, bucket, to)| Fault::EvtxLink { table, bucket, to }),
         ];
         (base, fault, 0u8..4, any::<u8>()).prop_map(|(base, fault, neighbours, position)| Case { base, fault, neighbours, position }).boxed()
     }
@@ -408,13 +490,31 @@ impl Property for C07 {
         for p in &paths {
             args.push(p.clone().into());
         }
-        let out = run_s4(RunSpec { args, tmpdir: Some(&tmp), timeout: std::time::Duration::from_secs(120), cpu_limit: Some(std::time::Duration::from_secs(20)), ..Default::default() });
+        let out = run_s4(RunSpec { args, tmpdir: Some(&tmp), timeout: std::time::Duration::from_secs(120), cpu_limit: Some(std::time::Duration::from_secs(20)), backtrace_on_hang: true, ..Default::default() });
         let ctx = format!("damaged={} ({} bytes) neighbours={} position={}", desc, dsize, npaths.len(), pos);
         if out.timed_out {
             if out.deadlocked {
                 return Outcome::fail("hang", format!("{}: the process stopped making progress", ctx));
             }
+            // known finding F27: a cyclic chain in an evtx chunk's string or template table never ends inside the evtx crate
+            if dpath.to_string_lossy().ends_with(".evtx") {
+                if let Some(table) = std::fs::read(&dpath).ok().and_then(|d| evtx_chain_cycle(&d)) {
+                    return Outcome::fail("evtx-chain-cycle-hang", format!("{}: cyclic {} chain, the evtx crate's populate() loop never ends", ctx, table));
+                }
+            }
+            // known finding family F27: endless or exponential work inside the third-party evtx crate (attributed by call
+            // site: every busy thread of the process is inside `evtx::` frames below `EvtxReader::analyze`)
+            let busy: Vec<&str> = out.hang_backtrace.split("\nThread ").filter(|t| t.contains("EvtxReader") || t.contains(" evtx::")).collect();
+            if !busy.is_empty() && busy.iter().all(|t| t.contains(" evtx::")) {
+                let site = busy[0].lines().find(|l| l.contains(" evtx::")).unwrap_or("").trim().to_string();
+                return Outcome::fail("evtx-crate-hang", format!("{}: spinning inside the evtx crate at {}", ctx, crate::bytes::esc_trunc(site.as_bytes(), 200)));
+            }
             return Outcome::fail("hang-busy", format!("{}: still running (and consuming CPU) after {}", ctx, if out.cpu_exceeded { "20 s of CPU time" } else { "120 s" }));
+        }
+        if out.signal == Some(libc::SIGABRT) && out.stderr_str().contains("panicked at") && out.stderr_str().lines().any(|l| l.contains("panicked at") && l.contains("/evtx-0.")) {
+            // known finding family F28: a panic whose location lies inside the evtx crate's sources (panic=abort)
+            let site = out.stderr_str().lines().find(|l| l.contains("panicked at")).unwrap_or("").to_string();
+            return Outcome::fail("evtx-crate-panic", format!("{}: {}", ctx, crate::bytes::esc_trunc(site.as_bytes(), 300)));
         }
         if out.signal.is_some() {
             return Outcome::fail("fatal-signal", format!("{}: killed by signal {:?}; stderr={}", ctx, out.signal, esc_trunc(&out.stderr, 600)));
@@ -444,6 +544,7 @@ impl Property for C07 {
             Base::Fixed { codec, .. } => format!("fixedstruct/{}", codec.kind()),
             Base::Shipped(i) => format!("shipped:{}", SHIPPED_BASES[*i as usize % SHIPPED_BASES.len()].rsplit('/').next().unwrap().rsplit('.').take(2).collect::<Vec<_>>().into_iter().rev().collect::<Vec<_>>().join(".")),
             Base::Random { .. } => "random-bytes".to_string(),
+            Base::Blob { file } => format!("blob:{}", file),
         };
         o = o.class(&format!("base:{}", bk));
         o = o.class(match &case.fault {
@@ -454,6 +555,7 @@ impl Property for C07 {
             Fault::Rename { .. } => "fault:name-mismatch",
             Fault::Append { .. } => "fault:append",
             Fault::Header { .. } => "fault:header-field",
+            Fault::EvtxLink { .. } => "fault:evtx-link",
         });
         if out.status == Some(1) {
             o = o.class("exit-status-1");
